@@ -277,6 +277,14 @@ def r19e(ctx, rep, rule="R19e"):
     f = need(rep, rule, facts, "marwood::vm::compare::<impl marwood::vm::Vm>::equal")
     if f is None:
         return
+    # the comparison proper may live in a helper the entry point delegates to (equal -> equal_seen)
+    pre = "marwood::vm::compare::<impl marwood::vm::Vm>::"
+    if not any((callee(t) or "").endswith(("::compare_pair", "::compare_vector")) for bb, t in f.calls()):
+        for bb, t in f.calls():
+            g = facts.fns.get(callee(t) or "")
+            if g is not None and g.path.startswith(pre) and any((callee(t2) or "").endswith(("::compare_pair", "::compare_vector")) for b2, t2 in g.calls()):
+                f = g
+                break
     eqv = [bb for bb, t in f.calls() if (callee(t) or "").endswith("::eqv")]
     desc = [(bb, t) for bb, t in f.calls() if (callee(t) or "").endswith(("::compare_pair", "::compare_vector"))]
     if not desc:
